@@ -50,12 +50,20 @@ import pickle, cloudpickle
 import makeimpl
 items = json.load(sys.stdin)
 res = []
+objs = []
 for it in items:
     try:
         obj = pickle.loads(base64.b64decode(it["blob"]))
+        objs.append(obj)
         res.append({"vec": makeimpl.vector(obj), "desc": makeimpl.describe(obj)})
     except BaseException as e:
+        objs.append(None)
         res.append({"vec": "LOAD-" + type(e).__name__, "desc": {"r": "LOAD-" + type(e).__name__ + ": " + str(e)[:200]}})
+# once more when everything is loaded: a later load must not have changed an earlier reconstruction
+for obj, r in zip(objs, res):
+    if obj is not None:
+        r["late_vec"] = makeimpl.vector(obj)
+        r["late_desc"] = makeimpl.describe(obj)
 json.dump(res, sys.stdout)
 """
 
@@ -80,6 +88,11 @@ def gen_specs(rng, thorough):
         for d2 in cats:
             if thorough or rng.chance(1, 3) or d2 == "Shaped":
                 out.append(("nested2", spec(d2, made(d1, rng.choice([A, ANY]), rng.choice(INNER_DIMS)), rng.choice(["b", "", "#q", "3"]))))
+    # families that pickle to the SAME (outer category, array class, combined dim string) and differ only in the effective
+    # dtypes: anything remembered per reconstruction key hands one member's dtypes to the others
+    for outer, dims_o, dims_i in (("Shaped", "b", "a"), ("Num", "", "a b"), ("Shaped", "3", "_ 2")):
+        for inner in ("Float", "Int", "Bool", "UInt8", "Complex64", "user.Float"):
+            out.append(("nested2-family", spec(outer, made(inner, A, dims_i), dims_o)))
     # three levels
     for _ in range(6000 if thorough else 200):
         d1, d2, d3 = rng.choice(cats), rng.choice(cats), rng.choice(["Shaped", rng.choice(cats)])
@@ -106,8 +119,10 @@ def classify(tag, sp):
     return tag
 
 
-def check_one(out, tag, sp, ann, v0, route, back_vec, back_desc):
+def check_one(out, tag, sp, ann, v0, route, back_vec, back_desc, together=None):
     replay = {"spec": sp, "route": route}
+    if together:
+        replay["loaded_together_with"] = together
     if back_vec != v0:
         if isinstance(back_vec, str) and not set(back_vec) <= {"0", "1", "A", "E"}:
             what = f"the annotation {describe(ann)} could not be reconstructed via {route}: {back_vec} {back_desc.get('r', '')}"
@@ -136,6 +151,7 @@ def run(tier, seed, out, drv, facts):
             continue
         built.append((tag, sp, ann, vector(ann)))
     # ---- in-process routes
+    kept = []
     for tag, sp, ann, v0 in built:
         d0 = describe(ann)
         nontrivial = tag != "flat" or any(ch in sp["dims"] for ch in "_.*")
@@ -153,7 +169,18 @@ def run(tier, seed, out, drv, facts):
                 i = next((i for i, (a, b) in enumerate(zip(v1, v0)) if a != b), 0)
                 out.violation(f"original-changed:{tag}:{route}", f"after a {route} round trip in the same process the ORIGINAL annotation {json.dumps(cores(d0))[:200]} answers differently: probe {makeimpl.probes()[i]!r} before={v0[i]} after={v1[i]}; it now reads {json.dumps(cores(describe(ann)))[:200]}", {"spec": sp, "route": route})
                 break
-            check_one(out, tag, sp, ann, v0, route, bv, bd)
+            if check_one(out, tag, sp, ann, v0, route, bv, bd) and route in ("pickle5", "cloudpickle"):
+                kept.append((tag, sp, ann, v0, route, back))
+    # once more when every annotation has been through every route: a later reconstruction must not have changed an earlier one
+    def rebuild_key(ann):
+        d = describe(ann).get("alts", [{}])[0]
+        return (d.get("cat"), d.get("at"), d.get("dimstr"))
+
+    family = {}
+    for tag, sp, ann, v0 in built:
+        family.setdefault(rebuild_key(ann), []).append(sp)
+    for tag, sp, ann, v0, route, back in kept:
+        check_one(out, tag, sp, ann, v0, route + "-then-other-loads", vector(back), describe(back), together=[x for x in family[rebuild_key(ann)] if x is not sp][:8])
     # ---- model correspondence of reduce / rebuild (single made annotations)
     singles = [(tag, sp, ann) for tag, sp, ann, _ in built if not tag.startswith("union")]
     for i in range(0, len(singles), 300):
@@ -187,7 +214,8 @@ def run(tier, seed, out, drv, facts):
     res = json.loads(p.stdout)
     for (tag, sp, ann, v0, route, _), r in zip(items, res):
         out.count("subprocess_loads")
-        check_one(out, tag, sp, ann, v0, route, r["vec"], r["desc"])
+        if check_one(out, tag, sp, ann, v0, route, r["vec"], r["desc"]) and "late_vec" in r:
+            check_one(out, tag, sp, ann, v0, route + "-then-other-loads", r["late_vec"], r["late_desc"], together=[x for x in family[rebuild_key(ann)] if x is not sp][:8])
 
 
 def replay(rep, out, drv, facts):
@@ -195,7 +223,8 @@ def replay(rep, out, drv, facts):
     ann = build(sp)
     v0 = vector(ann)
     route = rep.get("route", "pickle5")
-    fn = ROUTES.get(route, ROUTES["pickle5"])
+    fn = ROUTES.get(route.replace("-then-other-loads", "").replace("-subprocess", ""), ROUTES["pickle5"])
     back = fn(ann)
+    others = [fn(build(o)) for o in rep.get("loaded_together_with", [])]  # noqa: F841  (kept alive on purpose)
     check_one(out, "replay", sp, ann, v0, route, vector(back), describe(back))
     out.case("replay", True, sample=rep)
